@@ -3,7 +3,7 @@ import json
 
 def run(ctx):
     # every sparsity pattern on 3x3 (thorough: also every candidate subset, and 3x4) x every interleaving of the critical sections
-    ctx.tlc_mc("MC_Pivot", "MC_Pivot.quick.cfg", workers=8, timeout=1500)
+    ctx.tlc_mc("MC_Pivot", "MC_Pivot.quick.cfg", workers=8, timeout=1500, coverage=True)
     if ctx.thorough:
         ctx.tlc_mc("MC_Pivot", "MC_Pivot.cand.cfg", workers=12, timeout=3000)
         ctx.tlc_mc("MC_Pivot", "MC_Pivot.thorough.cfg", workers=12, timeout=6000)
